@@ -787,6 +787,10 @@ func runCaseRaw(c Case, tmp string, res *lib.Result) string {
 	if r2.err == nil && r2.digest != r1.digest {
 		res.Fail("not-deterministic", fmt.Sprintf("the same options on the same input gave %s and then %s", r1.digest, r2.digest), c)
 	}
+	if len(c.Opts) == 1 && c.Opts[0].K == "rebase" && c.Rebase && !c.Index && !c.NoHist {
+		// rebase alone: compared with the rebase model (Model/C13_Rebase.v)
+		return strings.Join(provenance(c, tgtStore, r1.digest), "\x00")
+	}
 	for _, o := range c.Opts {
 		if o.K == "rebase" || o.K == "toreferrers" {
 			return "" // the layer provenance model does not know base images or converted entries
@@ -929,6 +933,8 @@ func provenance(c Case, get store, d string) []string {
 				s := string(content)
 				fmt.Sscanf(s[strings.LastIndex(s, "-")+1:], "%d", &k)
 				id = k + 1
+			case th.Name == "base/new.txt":
+				id = 900
 			case th.Name == "added/new.txt":
 				fmt.Sscanf(string(content), "added-%d-%d", &k, &n)
 				id = 100 + addPos[k]
@@ -957,6 +963,8 @@ func provenance(c Case, get store, d string) []string {
 			ho = append(ho, fmt.Sprint(200+k))
 		case strings.HasPrefix(h.CreatedBy, "CMD"):
 			ho = append(ho, "300")
+		case h.CreatedBy == "ADD newbase":
+			ho = append(ho, "900")
 		default:
 			ho = append(ho, "0")
 		}
@@ -977,7 +985,10 @@ func provenance(c Case, get store, d string) []string {
 		del = append(del, fmt.Sprint(k))
 	}
 	sort.Strings(del)
-	return []string{fmt.Sprintf("mkCase %d %s %s %s %d %s %s", c.Layers, lib.CoqList(hi), lib.CoqBool(c.NoHist), lib.CoqList(del), nadd, lib.CoqList(lay), lib.CoqList(ho))}
+	if len(c.Opts) == 1 && c.Opts[0].K == "rebase" {
+		return []string{fmt.Sprintf("XRB %d %s %s %s", c.Layers, lib.CoqList(hi), lib.CoqList(lay), lib.CoqList(ho))}
+	}
+	return []string{fmt.Sprintf("XM (mkCase %d %s %s %s %d %s %s)", c.Layers, lib.CoqList(hi), lib.CoqBool(c.NoHist), lib.CoqList(del), nadd, lib.CoqList(lay), lib.CoqList(ho))}
 }
 
 func classify(msg string) string {
@@ -1043,7 +1054,7 @@ func Run(o lib.Opts) {
 		return
 	}
 	r := lib.NewRand(o.Seed)
-	cw := lib.NewCaseWriter(o.Out, "C13", "From Coq Require Import List Arith.\nFrom Verif Require Import Model.C13_Mod Corr.C13.\nImport ListNotations.", "case", 400)
+	cw := lib.NewCaseWriter(o.Out, "C13", "From Coq Require Import List Arith.\nFrom Verif Require Import Model.C13_Mod Corr.C13.\nImport ListNotations.", "xcase", 400)
 	all := []Case{
 		{Kind: "mod", Seed: 61, Index: true, Layers: 2, Target: "same", Opts: []Opt{{K: "data", N: 2}}},
 		{Kind: "mod", Seed: 62, Layers: 3, Empties: true, Target: "repo", Opts: []Opt{{K: "rmindex", N: 2}}},
